@@ -111,7 +111,7 @@ pub enum Cmd {
     #[command(alias = "rm")]
     Remove(RemoveArgs),
     List,
-    #[command(subcommand)]
+    #[command(subcommand, subcommand_required = true)]
     Service(Inner),
     #[command(flatten)]
     More(Small),
@@ -1031,6 +1031,14 @@ fn gen_ops<T: Mirror>(rng: &mut Rng, ty: u8) -> (Vec<String>, Vec<DOp>) {
                         a.retain(|t| !t.starts_with("--name=") && !t.starts_with("--target="));
                         n.retain(|(p, _)| p != "cmd.add.name" && p != "cmd.remove.target");
                     }
+                    // an update that stops at the intermediate command `service`: nothing below it is named
+                    if sub && matches!(v.cmd, Cmd::Service(_)) && rng.chance(1, 3) {
+                        if let Some(i) = a.iter().position(|t| t == "service") {
+                            a.truncate(i + 1);
+                            n.retain(|(p, _)| !p.starts_with("cmd."));
+                            n.push(("cmd.stops-at".to_string(), "service".to_string()));
+                        }
+                    }
                     (a, n)
                 }),
                 Box::new(|rng: &mut Rng| {
@@ -1245,6 +1253,17 @@ fn exec_ty<T: Mirror>(name: &str, sc: &DeriveSc, log: &mut Log, out: &mut Outcom
                         out.count_dyn(format!("op.update_err_{:?}", e.kind()));
                         ev!(log, "{i} update {:?} -> Err({:?})", argv, e.kind());
                         let _ = snapshot;
+                        if !*injected_fault {
+                            // an update that stops at an intermediate command whose variant the value already holds
+                            // names nothing below it: it is a no-op, not a missing subcommand
+                            if let Some((_, parent)) = named.iter().find(|(n, _)| n == "cmd.stops-at") {
+                                let holds = before.iter().any(|(n, x)| n == "cmd.variant" && x.starts_with(&format!("{parent}.")));
+                                if holds && matches!(e.kind(), clap::error::ErrorKind::MissingSubcommand | clap::error::ErrorKind::DisplayHelpOnMissingArgumentOrSubcommand | clap::error::ErrorKind::MissingRequiredArgument) {
+                                    out.violate("partial-update-rejected", "intermediate-command".to_string(), format!("op {i}: update {:?} stops at `{parent}`, whose variant the value already holds, but fails with {:?}", argv, e.kind()));
+                                    return;
+                                }
+                            }
+                        }
                         if !*injected_fault && e.kind() == clap::error::ErrorKind::MissingRequiredArgument {
                             // the update command relaxes every `required`: unless the update switches to another
                             // variant (which is then built from scratch), a missing required argument cannot be
